@@ -3,7 +3,8 @@ From Coq Require Import List Permutation String.
 From TS Require Import Model.Str Model.Outcome Model.Unicode Model.Syntax Model.Rename Model.Types Model.Parse Model.Reconcile Model.Collect Model.Lang.Common Model.MultiFile.
 From TS Require Model.Writer.
 From TS Require Import Spec.C14Spec.
-From TS Require Proofs.C14 Proofs.C14Front Proofs.C14Main Proofs.C14Imports Proofs.C14Order Proofs.C14Witness.
+From TS Require Import Model.Lang.Decl Model.Lang.Kotlin Spec.C14KotlinSpec.
+From TS Require Proofs.C14 Proofs.C14Front Proofs.C14Main Proofs.C14Imports Proofs.C14Order Proofs.C14Witness Proofs.C14Kotlin.
 Import ListNotations.
 Local Open Scope string_scope.
 
@@ -378,3 +379,96 @@ Theorem C14_glob_const_fixed :
     = [(lit "k", lit "MyConst")].
 Proof. exact Proofs.C14Witness.glob_const_fixed. Qed.
 Print Assumptions C14_glob_const_fixed.
+
+(* ---------------------------------------------------------------- Kotlin: the import names the class its module declares *)
+
+(* The theorems above speak about import PAIRS (module, generated name); TypeScript prints them as they are.  Kotlin
+   declares every class under kt_prefix ++ generated name in the package <package>.<crate>, so the pair (k, n) has to be
+   printed `import <package>.<k>.<prefix><n>`.  write_imports (kotlin.rs:293) prints exactly that block: one such line
+   per pair, in the order of the pairs, then an empty line - for every configuration and every import map.  (Before fix 26
+   of /repo the line lacked the prefix: under a non-empty prefix EVERY import named a class no file declares.) *)
+Theorem C14_kotlin_import_block :
+  forall (cfg : kt_config) (im : scoped),
+    kt_write_imports cfg im = c14_kt_import_block (kt_package cfg) (kt_prefix cfg) (scoped_pairs im).
+Proof. exact Proofs.C14Kotlin.kt_write_imports_block. Qed.
+Print Assumptions C14_kotlin_import_block.
+
+(* the name a TYPE is declared under: every struct, every enum, every JvmInline alias and every alias that is not
+   serde-renamed yields (as the last of its declarations - an algebraic enum's helper classes come first) a declaration
+   named kt_prefix ++ generated name, for every configuration.  Outside: c14_kt_alias_class, a plain `typealias` of a
+   serde-renamed alias (declared under prefix ++ RUST name: the open finding C09-kotlin-alias, which an import of such an
+   alias inherits - see C14_kotlin_alias_class_needed). *)
+Theorem C14_kotlin_declared_name :
+  forall (cfg : kt_config) (it : ritem) (ds : list kt_decl),
+    is_type14 it = true -> kt_decl_of cfg it = Ok ds -> c14_kt_alias_class it = false ->
+    exists d, In d ds /\ d_name (kt_obs d) = (kt_prefix cfg ++ renamed (item_id it))%list.
+Proof. exact Proofs.C14Kotlin.kt_decl_of_declares. Qed.
+Print Assumptions C14_kotlin_declared_name.
+
+(* For every workspace, every iteration order, every Kotlin configuration (every prefix, every package): every import pair
+   (k, n) of the file of crate c - printed `import <package>.<k>.<prefix><n>` by C14_kotlin_import_block - names another
+   crate k of the run and the generated name n of a TYPE item of k's data; and WHATEVER text the Kotlin generator writes
+   for crate k (any import map), it is `package <package>.<k>` + fixed imports (kt_begin_file_multi), k's own import
+   block, and a body in which every type item of k generated under n stands with its rendered declarations, one of them
+   declared under kt_prefix ++ n - exactly the class the import line names, prefix included (outside
+   c14_kt_alias_class, the open finding C09-kotlin-alias).  So no Kotlin import names a class that its module does not
+   define - the clause C14_imports_sound states for pairs, now down to the printed names. *)
+Theorem C14_kotlin_imports_name_declared_classes :
+  forall (uc : unicode) (cfg : kt_config) (T ign : list str) (ho_file ho_crate : list imported -> list imported)
+         (hc : crate_types -> crate_types) (ws : list ws_entry) (arrivals : list (str * parsed)),
+    parse_workspace uc T ign ho_file ws = Ok arrivals ->
+    (forall l x, In x (hc l) -> In x l) ->
+    forall c pd k n,
+      In (k, n) (scoped_pairs (crate_imports hc (multi_crates ho_crate arrivals) c pd)) ->
+      k <> c /\
+      exists pdk, In (k, pdk) (multi_crates ho_crate arrivals) /\
+        (exists it, In it (items_of pdk) /\ is_type14 it = true /\ renamed (item_id it) = n) /\
+        forall imk text, kt_generate_multi uc cfg k imk pdk = Ok text ->
+          forall it, In it (items_of pdk) -> is_type14 it = true -> renamed (item_id it) = n ->
+            exists ds pre post,
+              kt_decl_of cfg it = Ok ds /\
+              text = (kt_begin_file_multi cfg k ++ c14_kt_import_block (kt_package cfg) (kt_prefix cfg) (scoped_pairs imk) ++
+                      pre ++ List.concat (map kt_render_decl ds) ++ post)%list /\
+              (c14_kt_alias_class it = false -> exists d, In d ds /\ d_name (kt_obs d) = (kt_prefix cfg ++ n)%list).
+Proof. exact Proofs.C14Kotlin.kt_imports_name_declared. Qed.
+Print Assumptions C14_kotlin_imports_name_declared_classes.
+
+(* its hypotheses are satisfiable: the former witness has the import pair (a, A1) in crate b *)
+Theorem C14_kotlin_imports_nonvacuous :
+  exists arrivals pd,
+    parse_workspace uc_exec [] [] (fun l => l) Proofs.C14Kotlin.ws_kt_prefix = Ok arrivals /\
+    In (lit "b", pd) (multi_crates (fun l => l) arrivals) /\
+    scoped_pairs (crate_imports (fun l => l) (multi_crates (fun l => l) arrivals) (lit "b") pd) = [(lit "a", lit "A1")].
+Proof. exact Proofs.C14Kotlin.kotlin_imports_nonvacuous. Qed.
+Print Assumptions C14_kotlin_imports_nonvacuous.
+
+(* formerly C14-kotlin-import-prefix (a/src/lib.rs `#[typeshare] pub struct A1 { pub x: u8 }`, b/src/lib.rs `use a::A1;
+   #[typeshare] pub struct B1 { pub f: A1 }`, --lang kotlin --java-package p --kotlin-prefix KP: b.kt said `import p.a.A1`
+   while a.kt declares `data class KPA1`): exact text of both files - the import names KPA1, a.kt (package p.a) declares
+   KPA1; without a prefix the import line is what it was *)
+Theorem C14_kotlin_import_prefix_fixed :
+  Proofs.C14Kotlin.w_kt_text (lit "KP") Proofs.C14Kotlin.ws_kt_prefix (lit "b") =
+    Some (lit "package p.b" ++ [10%N; 10%N] ++ lit "import kotlinx.serialization.Serializable" ++ [10%N] ++
+          lit "import kotlinx.serialization.SerialName" ++ [10%N; 10%N] ++ lit "import p.a.KPA1" ++ [10%N; 10%N] ++
+          lit "@Serializable" ++ [10%N] ++ lit "data class KPB1 (" ++ [10%N; 9%N] ++ lit "val f: KPA1" ++ [10%N] ++ lit ")" ++ [10%N; 10%N])%list /\
+  Proofs.C14Kotlin.w_kt_text (lit "KP") Proofs.C14Kotlin.ws_kt_prefix (lit "a") =
+    Some (lit "package p.a" ++ [10%N; 10%N] ++ lit "import kotlinx.serialization.Serializable" ++ [10%N] ++
+          lit "import kotlinx.serialization.SerialName" ++ [10%N; 10%N; 10%N] ++
+          lit "@Serializable" ++ [10%N] ++ lit "data class KPA1 (" ++ [10%N; 9%N] ++ lit "val x: UByte" ++ [10%N] ++ lit ")" ++ [10%N; 10%N])%list /\
+  match Proofs.C14Kotlin.w_kt_text [] Proofs.C14Kotlin.ws_kt_prefix (lit "b") with
+  | Some t => contains_sub (lit "import p.a.A1") t | None => false end = true.
+Proof. exact Proofs.C14Kotlin.kotlin_import_prefix_fixed. Qed.
+Print Assumptions C14_kotlin_import_prefix_fixed.
+
+(* the class of C14_kotlin_declared_name is needed and is the open finding C09-kotlin-alias: `#[serde(rename = "UserId")]
+   type Id = String` is in the class and declared `typealias KPId` under the prefix KP *)
+Theorem C14_kotlin_alias_class_needed :
+  let a := {| aid := {| original := lit "Id"; renamed := lit "UserId"; via_serde_rename := true |}; agenerics := [];
+              atype := RPrim PString; acomments := []; adecs := []; aredacted := false |} in
+  c14_kt_alias_class (ItAlias a) = true /\
+  match kt_decl_of (Proofs.C14Kotlin.w_kt (lit "KP")) (ItAlias a) with
+  | Ok [d] => str_eqb (d_name (kt_obs d)) (lit "KPId")
+  | _ => false
+  end = true.
+Proof. exact Proofs.C14Kotlin.kotlin_alias_class_needed. Qed.
+Print Assumptions C14_kotlin_alias_class_needed.
